@@ -87,6 +87,49 @@ def encodeWith (es : List Entry) (common wi wr : Nat) : Bytes :=
   let p := payload es common (arityOf es) wi wr
   Gen.indxMagic ++ Gen.indxVersion ++ encLE 8 p.length ++ p
 
+/-! ## the writer as a program
+
+`Gen/IndxSaveGen.lean` (written by tools/translate_indx.py from the current `IndxIO.save`) lists every write of the
+writer in source order as a `WOp`; `runW` is what those writes put into the file. -/
+
+inductive WField | bufferSize | arity | count | indexWordSize | common | rowidWordSize
+deriving Repr, DecidableEq
+
+inductive WOp
+  | const (b : Bytes)                 -- f.write(<class byte-string constant>)
+  | pack (width : Nat) (f : WField)   -- f.write(struct.pack("<Q" | "<L" | "<H" | "<B", field))
+  | packFmt (f : WField)              -- f.write(struct.pack(IndxIO.format(index_word_size), field))
+  | matrix                            -- index.tofile(f): the coordinate matrix, row-major, in words of the fitted size
+  | lengths                           -- lengths.tofile(f)
+  | rowids                            -- for i in list_index: entries[i].tofile(f)
+deriving Repr, DecidableEq
+
+structure WCtx where
+  es : List Entry
+  common : Nat
+  arity : Nat
+  wi : Nat
+  wr : Nat
+  size : Nat
+
+def WCtx.field (c : WCtx) : WField → Nat
+  | .bufferSize => c.size
+  | .arity => c.arity
+  | .count => c.es.length
+  | .indexWordSize => c.wi
+  | .common => c.common
+  | .rowidWordSize => c.wr
+
+def interpW (c : WCtx) : WOp → Bytes
+  | .const b => b
+  | .pack w f => encLE w (c.field f)
+  | .packFmt f => encLE (Gen.formatWidth c.wi) (c.field f)
+  | .matrix => c.es.flatMap (fun e => e.coords.flatMap (encLE c.wi))
+  | .lengths => c.es.flatMap (fun e => encLE c.wr e.rowids.length)
+  | .rowids => c.es.flatMap (fun e => e.rowids.flatMap (encLE c.wr))
+
+def runW (c : WCtx) (p : List WOp) : Bytes := p.flatMap (interpW c)
+
 /-! ## reader -/
 
 def takeN (n : Nat) (bs : Bytes) : M (Bytes × Bytes) :=
@@ -145,5 +188,81 @@ def load (bs : Bytes) : M (List Entry × Nat × Nat) := do
   let blen := 16 + size
   if bs.length < blen then throw .mmapShort
   parsePayload ((bs.take blen).drop 16)
+
+/-! ## the reader as a program
+
+`Gen/IndxLoadGen.lean` (written by tools/translate_indx.py from the current `IndxIO.load`) lists every read of the loader
+in source order as an `ROp`; `runR` executes such a list on the bytes of a file. -/
+
+inductive RField | dims | count | wi | wr
+deriving Repr, DecidableEq
+
+inductive ROp
+  | expectMagic          -- if f.read(4) != INDEXED_MAGIC: raise
+  | expectVersion        -- if f.read(4) != VERSION: raise
+  | headerSize           -- buffer_size = struct.unpack("<Q", f.read(8))[0]
+  | map                  -- mmap of exactly 16 + buffer_size bytes; parsing continues at offset 16
+  | unpack (w : Nat) (f : RField)   -- struct.unpack_from(<format of width w>, buf, offset)[0]; offset += w
+  | unpackFmtCommon      -- common = unpack_from(IndxIO.format(index_word_size)); offset += index_word_size
+  | matrix               -- ndarray (index_length, index_dimensions) of IndxIO.dtype(index_word_size); offset += nbytes
+  | lengths              -- ndarray (len(all_coords),) of IndxIO.dtype(word_size); offset += len(lengths) * word_size
+  | rest                 -- ndarray of int((buffer_length - offset) / itemsize) row-id words
+  | slice                -- rowid_lists[ptr : ptr + length] per entry, forced to uint32
+deriving Repr, DecidableEq
+
+structure RSt where
+  file : Bytes
+  size : Nat := 0
+  buf : Bytes := []
+  dims : Nat := 0
+  count : Nat := 0
+  wi : Nat := 0
+  wr : Nat := 0
+  common : Nat := 0
+  coords : List (List Nat) := []
+  lens : List Nat := []
+  ids : List Nat := []
+  entries : List Entry := []
+
+def RSt.set (st : RSt) (f : RField) (v : Nat) (r : Bytes) : RSt :=
+  match f with
+  | .dims => { st with dims := v, buf := r }
+  | .count => { st with count := v, buf := r }
+  | .wi => { st with wi := v, buf := r }
+  | .wr => { st with wr := v, buf := r }
+
+def stepR (st : RSt) : ROp → M RSt
+  | .expectMagic => if st.file.take 4 ≠ Gen.indxMagic then throw .header else pure st
+  | .expectVersion => if (st.file.drop 4).take 4 ≠ Gen.indxVersion then throw .version else pure st
+  | .headerSize =>
+      if ((st.file.drop 8).take 8).length < 8 then throw .structShort
+      else pure { st with size := decLE ((st.file.drop 8).take 8) }
+  | .map =>
+      if st.file.length < 16 + st.size then throw .mmapShort
+      else pure { st with buf := (st.file.take (16 + st.size)).drop 16 }
+  | .unpack w f => do
+      let (v, r) ← rdWord w st.buf
+      pure (st.set f v r)
+  | .unpackFmtCommon => do
+      let (cb, _) ← takeN (Gen.formatWidth st.wi) st.buf
+      let (_, r) ← takeN st.wi st.buf
+      pure { st with common := decLE cb, buf := r }
+  | .matrix => do
+      let (ws, r) ← rdWords (Gen.wordDtype st.wi).itemsize (st.count * st.dims) st.buf
+      pure { st with coords := toRows st.dims st.count ws, buf := r }
+  | .lengths => do
+      let (lens, _) ← rdWords (Gen.wordDtype st.wr).itemsize st.count st.buf
+      let (_, r) ← takeN (st.count * st.wr) st.buf
+      pure { st with lens := lens, buf := r }
+  | .rest => do
+      let (ids, _) ← rdWords (Gen.wordDtype st.wr).itemsize (st.buf.length / (Gen.wordDtype st.wr).itemsize) st.buf
+      pure { st with ids := ids }
+  | .slice =>
+      let ids := if (Gen.wordDtype st.wr).itemsize = 4 then st.ids else st.ids.map (· % 2^32)
+      pure { st with entries := (st.coords.zip (sliceBy st.lens ids)).map (fun (c, r) => ⟨c, r⟩) }
+
+def runR (p : List ROp) (file : Bytes) : M (List Entry × Nat × Nat) := do
+  let st ← p.foldlM stepR { file := file }
+  pure (st.entries, st.common, (Gen.wordDtype st.wr).itemsize)
 
 end Catii.Indx
